@@ -37,13 +37,27 @@ class Sim:
     def native(self):
         return build.native('sim.cpp', extra=['-DNATIVE_DRIVER'])
     def engine(self):
-        E = Engine(self.M); stubs.install(E); return E
+        E = Engine(self.M); stubs.install(E)
+        # std::to_string only feeds exception messages here: cut to an empty string (message text is outside every claim)
+        E.prefix_stubs.append(('_ZNSt7__cxx119to_stringE', lambda E_, st, a: (stubs.Str(E_, st, a[0]).init_local(), None)[1]))
+        return E
 
     def new_proc(self, st, mem_arr, over=None, name='Processor'):
         """raw (unconstructed) Processor object whose memory array is the SMT array mem_arr"""
         p = st.alloc(self.size, name); o = st.objs[p.obj]
         o.regions.append(Region(self.off['memory'], 4, self.memwords, mem_arr, over))
         return p
+    def constructed_proc(self, E, st, mem_arr, over=None, maxc=0):
+        """Processor built by its real constructor (so that members this harness does not know about hold what the
+        constructor gives them), then its memory array replaced by mem_arr"""
+        p = self.new_proc(st, z3.K(z3.BitVecSort(32), z3.BitVecVal(0, 32)))
+        IN = st.alloc(300, 'istream'); OUT = st.alloc(300, 'ostream')
+        E.stubs.setdefault('_ZNSt13basic_fstreamIcSt11char_traitsIcEEC1Ev', stubs.s_nop)
+        rs = E.run('s_construct', [p, IN, OUT, maxc], st)
+        if len(rs) != 1 or rs[0].kind != 'ret': raise Inconclusive(f"Processor constructor: {rs}")
+        r = rs[0].st.wobj(p.obj).regions[0]
+        r.arr = mem_arr; r.over = dict(over or {}); r._full = None
+        return rs[0].st, p
     def setf(self, E, st, p, name, v): E.store(st, p.add(self.off[name]), FW[name], v)
     def getf(self, E, st, p, name): return E.load(st, p.add(self.off[name]), FW[name])
     def mem(self, st, p): return st.objs[p.obj].regions[0]
